@@ -65,6 +65,10 @@ def gen_case(r: random.Random, compiled: list[dict]) -> dict:
             "macros": macros,
             "pos_marks_macro": [[r.choice(FILES), r.choice(NAMES), gen_pm(r)] for _ in range(r.choice([0, 0, 1, 2]))],
         }
+    # a macro expanded twice contributes its position marks twice: identical list entries must survive
+    for fld in ("pos_marks", "pos_marks_macro"):
+        if sm[fld] and r.random() < 0.35:
+            sm[fld].insert(r.randint(0, len(sm[fld])), copy.deepcopy(r.choice(sm[fld])))
     keys = [k for k, _ in sm["map"]] + [k for k, _ in sm["macros"]]
     rets = [v[5] for _, v in sm["macros"] if v[5] is not None]
     universe = sorted(set(keys + rets + [x + 1 for x in rets] + [r.randint(0, 40) for _ in range(3)]))
